@@ -127,7 +127,7 @@ def check_est(chk, facts):
     back["non_scope_constraint"] = "conditions"
     n += namesake_call(chk, rule, facts, "cedar_policy_core::est::Policy::try_into_ast_policy_or_template", "cedar_policy_core::ast::policy::Template::new", EP,
                        "EST -> AST template", alias=back)
-    chk.floor(rule, "record fields AST <-> EST", n, 18)
+    chk.floor(rule, "record fields AST <-> EST", n, 17)
     # the condition list is folded so that clauses evaluate in source order: [c1, c2, c3] -> c1 && (c2 && c3)
     f = facts.fn("cedar_policy_core::est::Policy::try_into_ast_policy_or_template")
     if f is not None:
@@ -323,6 +323,6 @@ def check_pst(chk, facts):
     ES = "cedar_policy_core::est::scope_constraints::"
     for ty in ("PrincipalConstraint", "ResourceConstraint"):
         n += endo_variants(chk, rule, facts, ES + ty + "::link", ES + ty, "est::scope_constraints::" + ty, "est " + ty + "::link")
-    chk.floor(rule, "constraint rewriting arms", n, 28)
+    chk.floor(rule, "constraint rewriting arms", n, 26)
     for fname, tag in (("cedar_policy_core::pst::ast_conversions::<impl std::convert::TryFrom<cedar_policy_core::pst::policy::Template> for cedar_policy_core::ast::policy::Template>::try_from", "PST -> AST clauses fold"),):
         fold_order(chk, rule, facts, fname, tag)
